@@ -16,7 +16,7 @@ PAGE == 4096
 
 VARIABLES
   lc,        \* configuration of this life: [n, legacy, ap, inUse, max]
-  phase,     \* "new" | "ok" | "err" | "dropped"
+  phase,     \* "new" | "allocfail" | "ok" | "err" | "dropped"
   asked,     \* which answers the constructor obtained: subset of {"used","max"}
   regions,   \* live DMA regions: set of [pa, pages, dir]
   allocs,    \* number of successful dma_alloc so far
@@ -95,6 +95,20 @@ QueueSet(size, d, a, u) ==
 RingsObserved(z) == phase = "new" /\ reg # NoReg /\ zeroed' = z
                     /\ UNCHANGED <<lc, phase, asked, regions, allocs, reg>>
 
+\* fault point: the platform has no memory for the k-th region.  Nothing is registered; regions
+\* obtained before are returned (exactly as allocated) before the constructor reports DmaError,
+\* and nothing is ever returned that was not obtained.
+AllocFailed ==
+  /\ phase = "new" /\ ~Refused /\ reg = NoReg
+  /\ phase' = "allocfail"
+  /\ UNCHANGED <<lc, asked, regions, allocs, reg, zeroed>>
+NewErrNoMem(e) ==
+  /\ phase = "allocfail"
+  /\ e = "DmaError"
+  /\ regions = {} /\ reg = NoReg
+  /\ phase' = "err"
+  /\ UNCHANGED <<lc, asked, regions, allocs, reg, zeroed>>
+
 NewOk ==
   /\ phase = "new" /\ ~Refused /\ reg # NoReg /\ zeroed
   /\ phase' = "ok"
@@ -108,10 +122,10 @@ NewErr(e) ==
 
 \* returned exactly once with the address, pointer and page count it was allocated with
 DmaDealloc(pa, pages, vaOk, ap) ==
-  /\ phase \in {"ok", "dropped"}
+  /\ phase \in {"ok", "dropped", "allocfail"}
   /\ vaOk /\ ap = lc.ap
   /\ \E r \in regions : r.pa = pa /\ r.pages = pages /\ regions' = regions \ {r}
-  /\ phase' = "dropped"
+  /\ phase' = (IF phase = "allocfail" THEN "allocfail" ELSE "dropped")
   /\ UNCHANGED <<lc, asked, allocs, reg, zeroed>>
 
 LifeEnd ==
